@@ -36,7 +36,7 @@ type vfc15Topic struct {
 
 // vfc15Step is one script step: a mutation of the cluster model or a client operation.
 //
-//	mutations: addTopic delTopic topicErr addParts rmPart leader replicas partErr addBroker rmBroker readdr
+//	mutations: addTopic delTopic topicErr addParts rmPart leader replicas partErr addBroker rmBroker swapBroker readdr
 //	           down up failNext heal scriptNext
 //	client:    refresh read sleep
 type vfc15Step struct {
@@ -347,6 +347,13 @@ func (s *vfSim) vfc15Mutate(st *vfc15Step) {
 	case "rmBroker":
 		if id, ok := pickBroker(); ok {
 			s.vfc15RemoveBroker(id)
+		}
+	case "swapBroker":
+		// a broker leaves and another one (id st.N) arrives before the client looks again: the broker set changes
+		// without getting smaller
+		if id, ok := pickBroker(); ok {
+			s.vfc15RemoveBroker(id)
+			s.vfc15AddBroker(int32(st.N), vfc15AltAddr(int32(st.N), st.Variant))
 		}
 	case "readdr":
 		if id, ok := pickBroker(); ok {
